@@ -95,4 +95,165 @@ def classify (gate : List String) : Option String :=
 
 def protectedKinds : List String := ["dzkp", "dzkpProof", "mac", "macCheck", "shuffle", "count"]
 
+/-! ## Order of traffic: validate before open
+
+An observed run is the list of chunks in the order in which the *receiving* side pulled them from the
+in-memory transport (so the chunks destined to one endpoint appear in that endpoint's program order, and a chunk
+is pulled no earlier than it was sent). An endpoint is a (helper, shard) pair.
+
+**Rule (validate before open).** Let `E` send a chunk on an opening gate (`Generated.openGates`: `reveal_y` of the
+conversion, `reveal_r` / `revealz` of the PRF evaluation, `aggregate/reveal`) of step number `k` of
+`Generated.phaseOrder`. Then no chunk of a validate gate (`Generated.validateOf`) of a step `k' ≤ k` destined to `E`
+may be pulled *later*: `E` opens only after it has received every message of the validation of the batch the
+opened value belongs to (`validate_record` before `reveal` in `prf_eval.rs`, `validated_partial_reveal`,
+`validated_seq_join` / `validator.validate()` before the next step) and of all earlier steps. (Stated for one
+validator batch per step, which is what the suite's runs have; with several batches the rule applies per batch.)
+
+**Rule (validated at all).** If `E` sent multiplication traffic (a non-opening protocol gate) in a DZKP / MAC step,
+validate traffic of that step destined to `E` exists.
+
+**Rule (step order).** For every endpoint, the steps appear (first chunk destined to it) in the order of
+`Generated.phaseOrder`. -/
+
+structure Ev where
+  gate : List String
+  src : Nat
+  dst : Nat
+  shard : String
+  deriving Repr
+
+def indexOf? {α : Type} (p : α → Bool) : List α → Nat → Option Nat
+  | [], _ => none
+  | a :: r, i => if p a then some i else indexOf? p r (i + 1)
+
+/-- (step number in `phaseOrder`, is it a gate of the step's validate step?) -/
+def phaseOf (gate : List String) : Option (Nat × Bool) :=
+  match IpaVerif.Generated.validateOf.find? (fun pv => isPrefix pv.2 gate) with
+  | some pv => (indexOf? (fun row => row.1 == pv.1) IpaVerif.Generated.phaseOrder 0).map (·, true)
+  | none => (indexOf? (fun row => isPrefix row.1 gate) IpaVerif.Generated.phaseOrder 0).map (·, false)
+
+def isOpenGate (gate : List String) : Bool := IpaVerif.Generated.openGates.any (isPrefix · gate)
+
+def kindOfPhase (k : Nat) : String := (IpaVerif.Generated.phaseOrder.getD k ([], "")).2
+
+structure Tagged where
+  ph : Nat
+  val : Bool
+  opn : Bool
+  src : Nat
+  dst : Nat
+  shard : String
+  gate : List String
+
+def tag (e : Ev) : Option Tagged :=
+  (phaseOf e.gate).map fun (k, v) =>
+    { ph := k, val := v, opn := !v && isOpenGate e.gate, src := e.src, dst := e.dst, shard := e.shard, gate := e.gate }
+
+abbrev Endpoint := Nat × String
+
+def lookupE (m : List (Endpoint × Nat)) (e : Endpoint) : Option Nat :=
+  (m.find? (fun x => x.1.1 == e.1 && x.1.2 == e.2)).map (·.2)
+
+def insertMin (m : List (Endpoint × Nat)) (e : Endpoint) (k : Nat) : List (Endpoint × Nat) :=
+  match lookupE m e with
+  | some k0 => if k < k0 then (e, k) :: m.filter (fun x => !(x.1.1 == e.1 && x.1.2 == e.2)) else m
+  | none => (e, k) :: m
+
+/-- validate before open: scan from the end, remembering per endpoint the smallest step whose validate traffic is
+still to come. Returns the first violation found. -/
+def vboScan : List Tagged → List (Endpoint × Nat) × Option String
+  | [] => ([], none)
+  | e :: rest =>
+    let (later, bad) := vboScan rest
+    let bad' :=
+      if e.opn then
+        match lookupE later (e.src, e.shard) with
+        | some k' => if k' ≤ e.ph then
+            some s!"H{e.src} (shard {e.shard}) opened {"/".intercalate e.gate} (step {e.ph}) before the validation traffic of step {k'} had reached it"
+          else bad
+        | none => bad
+      else bad
+    let later' := if e.val then insertMin later (e.dst, e.shard) e.ph else later
+    (later', bad')
+
+def validateBeforeOpen (evs : List Tagged) : Option String := (vboScan evs).2
+
+/-- validated at all -/
+def validatedAtAll (evs : List Tagged) : Option String :=
+  let muls := evs.filter fun e => !e.val && !e.opn && (kindOfPhase e.ph == "dzkp" || kindOfPhase e.ph == "mac")
+  match muls.find? (fun e => !(evs.any fun v => v.val && v.ph == e.ph && v.dst == e.src && v.shard == e.shard)) with
+  | some e => some s!"H{e.src} (shard {e.shard}) sent multiplication traffic on {"/".intercalate e.gate} but no validation traffic of that step reached it"
+  | none => none
+
+/-- step order per destination endpoint -/
+def stepOrderScan : List Tagged → List (Endpoint × List Nat) → Option String
+  | [], _ => none
+  | e :: rest, seen =>
+    let ep : Endpoint := (e.dst, e.shard)
+    let mine := ((seen.find? (fun x => x.1.1 == ep.1 && x.1.2 == ep.2)).map (·.2)).getD []
+    if mine.contains e.ph then stepOrderScan rest seen
+    else if mine.any (fun k => e.ph < k) then
+      some s!"H{e.dst} (shard {e.shard}) received first traffic of step {e.ph} ({"/".intercalate e.gate}) after traffic of a later step"
+    else stepOrderScan rest ((ep, e.ph :: mine) :: seen.filter (fun x => !(x.1.1 == ep.1 && x.1.2 == ep.2)))
+
+/-- the opening gates of the steps that were run must all have been seen (otherwise the rules are vacuous) -/
+def opensSeen (evs : List Tagged) : Option String :=
+  match IpaVerif.Generated.openGates.find? (fun g => !(evs.any fun e => e.opn && isPrefix g e.gate)) with
+  | some g => some s!"no traffic seen on opening gate {"/".intercalate g}"
+  | none => none
+
+/-! ### rows committed before the MAC keys of a shuffle are opened
+
+C05's `tag_detects` bounds the chance that an altered row verifies **for keys the adversary does not know when it
+chooses the alteration**. In `malicious_sharded_shuffle` an honest helper therefore opens its MAC-key shares
+(`verify_shuffle/reveal_m_a_c_key`) only after its own part of the shuffle rounds has finished, i.e. after it has
+received every row / row-count message (`transfer_x_y`, `transfer_c`, `cardinality`) of that shuffle destined to it.
+
+**Rule (keys after rows).** For every shuffle step `S` of `phaseOrder` and every endpoint `E`: no chunk of
+`S/verify_shuffle/reveal_m_a_c_key` destined to `E` is pulled before a chunk of `S/transfer_x_y`, `S/transfer_c` or
+`S/cardinality` destined to `E` (an honest helper starts receiving key shares at the point where it sends its own).
+This is the per-helper form the code guarantees; it does **not** say that *every* helper has committed its rows
+before *any* helper opens a key share (H1's part of the rounds ends before H2 and H3 exchange `c₁`, `c₂`). -/
+
+def isShuffleStep (k : Nat) : Bool := kindOfPhase k == "shuffle"
+
+def stepPath (k : Nat) : List String := (IpaVerif.Generated.phaseOrder.getD k ([], "")).1
+
+def isKeyGate (e : Tagged) : Bool :=
+  isShuffleStep e.ph && isPrefix (stepPath e.ph ++ IpaVerif.Generated.shuffleKeyGate) e.gate
+
+def isCommitGate (e : Tagged) : Bool :=
+  isShuffleStep e.ph && IpaVerif.Generated.shuffleCommitGates.any (fun g => isPrefix (stepPath e.ph ++ g) e.gate)
+
+/-- scan from the end; `later` = (endpoint, shuffle step) pairs for which a row chunk is still to come -/
+def keysAfterRowsScan : List Tagged → List (Endpoint × Nat) × Option String
+  | [] => ([], none)
+  | e :: rest =>
+    let (later, bad) := keysAfterRowsScan rest
+    let ep : Endpoint := (e.dst, e.shard)
+    let pending := later.any (fun x => x.1.1 == ep.1 && x.1.2 == ep.2 && x.2 == e.ph)
+    let bad' := if isKeyGate e && pending then
+        some s!"H{e.dst} (shard {e.shard}) received a MAC-key share on {"/".intercalate e.gate} from H{e.src} before the last row message of that shuffle had reached it"
+      else bad
+    let later' := if isCommitGate e && !pending then (ep, e.ph) :: later else later
+    (later', bad')
+
+def keysAfterRows (evs : List Tagged) : Option String := (keysAfterRowsScan evs).2
+
+/-- both shuffles must show key and row traffic (otherwise the rule is vacuous) -/
+def shuffleTrafficSeen (evs : List Tagged) : Option String :=
+  let steps := (List.range IpaVerif.Generated.phaseOrder.length).filter isShuffleStep
+  match steps.find? (fun k => !(evs.any fun e => e.ph == k && isKeyGate e) || !(evs.any fun e => e.ph == k && isCommitGate e)) with
+  | some k => some s!"no key / row traffic seen for shuffle {"/".intercalate (stepPath k)}"
+  | none => none
+
+/-- Shard-to-shard traffic inside one helper is outside the single-corrupt-helper threat model (all shards of a
+helper are one party). It is classified, not protected: the step it belongs to, or `other`. -/
+def shardClass (gate : List String) : String :=
+  match phaseOf gate with
+  | some (k, _) => "/".intercalate (IpaVerif.Generated.phaseOrder.getD k ([], "")).1
+  | none => match gate with
+    | g :: _ => g
+    | [] => "other"
+
 end IpaVerif.Malicious
